@@ -28,7 +28,7 @@ def gen_request(rng, idx, last):
     conn = rng.choice(CONN_VARIANTS)
     if version == "1.0" and method == "POST-chunked":
         method = "POST-cl"
-    expect = method.startswith("POST") and version == "1.1" and rng.random() < 0.15
+    expect = method.startswith("POST") and rng.random() < 0.3
     return {"version": version, "method": method, "conn": conn, "expect": expect,
             "body": rng.choice(["", "abc", "x" * 50])}
 
@@ -118,6 +118,8 @@ def gen_program(rng, req):
     total = sum(len(c) for c in chunks)
     if spec.get("cl") == "cut":
         spec["cut_by"] = rng.randint(1, max(1, total))
+    if req.get("expect") or rng.random() < 0.15:
+        spec["read_when"] = rng.choice(["first", "after_start", "after_first_chunk", "after_first_chunk"])
     spec["lazy_start"] = spec["mode"] == "gen" and rng.random() < 0.3
     spec["exc_info_retry"] = rng.random() < 0.08
     spec["has_close"] = rng.random() < 0.7
@@ -126,6 +128,7 @@ def gen_program(rng, req):
         if spec["mode"] in ("gen", "write+iter"):
             opts += [["after_chunk", i] for i in range(0, len(chunks) + 1)]
         spec["fail"] = rng.choice(opts)
+        spec["fail_exc"] = rng.choice(["app", "app", "oserror", "filenotfound", "permission", "timeout", "valueerror"])
     return spec
 
 
@@ -173,6 +176,19 @@ def judge(case, out, router):
         return v
     res = parse_lenient_head_errors(data, methods, out["eof"])
     resps = res.responses
+    # an application that failed before anything of its response was sent may be answered by a clean 500 (generic
+    # exceptions) or by nothing at all (gunicorn treats an OSError from the application like a socket error): a bare
+    # interim 100 Continue without a final response is "nothing"
+    failed_silently = None
+    for i, app in enumerate(router.apps):
+        if app.calls and app.rec.get("failed_at") and i == len(resps) and i < router.n:
+            failed_silently = i
+    if failed_silently is not None and res.problem in (None, "interim-without-final"):
+        res.problem = None
+        if failed_silently == 0 and not resps:
+            if not out["eof"]:
+                v.append(("connection-left-open", "application failed, nothing sent, and the server did not close"))
+            return v
     # walk the responses
     for i, rp in enumerate(resps):
         if i >= len(reqs):
@@ -244,7 +260,7 @@ def judge(case, out, router):
                 return v
         else:
             # last response received: if it promised keep-alive and an unanswered request was pending -> broken promise
-            if rp.announces_keepalive() and i + 1 < len(reqs) and not asked_close(reqs[i]):
+            if rp.announces_keepalive() and i + 1 < len(reqs) and not asked_close(reqs[i]) and failed_silently != i + 1:
                 v.append(("announced-keepalive-then-closed",
                           "response #%d announced keep-alive but the pipelined request #%d was never answered"
                           % (i, i + 1)))
